@@ -77,6 +77,9 @@ type GenOpts struct {
 	InitialismPct int
 	// SingleLetterPct: chance a name is a single-letter word (X, N).
 	SingleLetterPct int
+	// HollowPct: chance a nested struct has no exported field at all (only
+	// skipped fields, or none): e.g. an embedded mutex or bookkeeping struct.
+	HollowPct int
 }
 
 type nameSet struct {
@@ -149,7 +152,11 @@ func randomSpec(r *fw.Rand, o *GenOpts, ns *nameSet, depth int) *Spec {
 				}
 			}
 			f.Kind = fw.Pick(r, kinds)
-			f.Sub = randomSpec(r, o, ns, depth+1)
+			if r.Chance(o.HollowPct) {
+				f.Sub = hollowSpec(r, ns, o)
+			} else {
+				f.Sub = randomSpec(r, o, ns, depth+1)
+			}
 			exported++
 		default:
 			f.Kind = KLeaf
@@ -177,6 +184,27 @@ func randomSpec(r *fw.Rand, o *GenOpts, ns *nameSet, depth int) *Spec {
 		f := &Field{Parent: s, Index: len(s.Fields), Tags: map[string]string{}, Kind: KLeaf, Leaf: fw.Pick(r, o.Leaves)}
 		f.Words = ns.fresh(r, o)
 		f.Name = GoName(f.Words)
+		s.Fields = append(s.Fields, f)
+	}
+	return s
+}
+
+// hollowSpec: a struct type with nothing dials exposes.
+func hollowSpec(r *fw.Rand, ns *nameSet, o *GenOpts) *Spec {
+	s := &Spec{}
+	for n := r.Intn(3); n > 0; n-- {
+		f := &Field{Parent: s, Index: len(s.Fields), Tags: map[string]string{}}
+		f.Words = ns.fresh(r, o)
+		f.Name = GoName(f.Words)
+		f.Kind = FieldKind(int(KSkipUnexported) + r.Intn(4))
+		switch f.Kind {
+		case KSkipUnexported:
+			f.Name = "h" + strings.ToLower(f.Name)
+			f.Leaf = LeafByName("int")
+		case KSkipDash:
+			f.Leaf = LeafByName("string")
+			f.Tags["dials"] = "-"
+		}
 		s.Fields = append(s.Fields, f)
 	}
 	return s
